@@ -211,7 +211,7 @@ def observe(prj, fi: FuncInfo, kind: str, v: int, subj_is_length: bool):
         from ..evalsite import measurement, new_instance
         from ..fsmodel import PathV
         lab = W.Lab(prj, W.ROOT, deep=True)
-        m = measurement(v)
+        m = measurement(v, prj=prj)
         lab.measured = [m]
         cr = new_instance(prj, prj.cls("codelimit.common.CheckResult:CheckResult"))
         lab.run(fi.qual, [PathV(W.ROOT + "/a.py"), cr])
@@ -509,7 +509,7 @@ def rule_R2_evaluated(ctx, prj: Project) -> bool:
         for hard in (0, 1, 2):
             for unm in (0, 1, 2):
                 lab = W.Lab(prj, W.ROOT, deep=True)
-                lab.measured = [measurement(7, "small")] + [measurement(45, f"h{i}") for i in range(hard)] + [measurement(90, f"u{i}") for i in range(unm)]
+                lab.measured = [measurement(7, "small", prj)] + [measurement(45, f"h{i}", prj) for i in range(hard)] + [measurement(90, f"u{i}", prj) for i in range(unm)]
                 code = "no typer.Exit raised"
                 try:
                     it = MiniInterp(prj, lab.hook, max_steps=400000, max_depth=60)
@@ -528,7 +528,7 @@ def rule_R2_evaluated(ctx, prj: Project) -> bool:
                 rows.append((quiet, hard, unm, code, bool(printed)))
     # several files in one run, two of them with the same base name in different directories: every file's long functions count
     lab = W.Lab(prj, W.ROOT, deep=True)
-    lab.measured = [measurement(45, "h"), measurement(90, "u")]
+    lab.measured = [measurement(45, "h", prj), measurement(90, "u", prj)]
     files = ["a.py", "sub/deep/a.py", "sub/s.py"]
     try:
         it = MiniInterp(prj, lab.hook, max_steps=600000, max_depth=60)
@@ -810,7 +810,7 @@ def rule_R3(ctx, prj: Project):
         from ..evalsite import measurement, new_instance
         from ..fsmodel import PathV
         lab = W.Lab(prj, W.ROOT, deep=True)
-        lab.measured = [measurement(v, f"f{v}") for v in (40, 70, 35, 61)]
+        lab.measured = [measurement(v, f"f{v}", prj) for v in (40, 70, 35, 61)]
         cr = new_instance(prj, prj.cls("codelimit.common.CheckResult:CheckResult"))
         lab.run(fi.qual, [PathV(W.ROOT + "/a.py"), cr])
         adds = [c for c in lab.calls if c[0] == "add"]
